@@ -168,7 +168,15 @@ def level_spec(ref, op, nt, p1, p2):
     return False
 
 
+# optional re-interpretation of a binary structural predicate (name -> f(ref, p, q)); empty =
+# the specification.  Used by c03.py to recognise the known class K_cons_rel: the verdict under
+# "consecutive as /repo implements it" is compared with the implementation's verdict.
+PRED_OVERRIDE = {}
+
+
 def path2(ref, name, p, q):
+    if name in PRED_OVERRIDE:
+        return PRED_OVERRIDE[name](ref, p, q)
     if name == "before":
         return doc_lt(p, q)
     if name == "after":
